@@ -336,6 +336,12 @@ HandleTightBPP (rfbClient* client, int rx, int ry, int rw, int rh)
 
       numRows = (bufferSize - zs->avail_out) / rowSize;
 
+      /* the stream may not deliver more scan lines than the rectangle has */
+      if (rowsProcessed + numRows > rh) {
+	rfbClientLog("Tight encoding: too many scan lines after decompression.\n");
+	return FALSE;
+      }
+
       filterFn(client, rx, ry+rowsProcessed, numRows);
 
       extraBytes = bufferSize - zs->avail_out - numRows * rowSize;
